@@ -4,7 +4,7 @@
    newline. *)
 From Coq Require Import NArith Sorted.
 From Similar Require Import Model.Base Model.Capture Model.Iter Model.Tokenize Model.TextDiff
-     Model.Inline Spec.Script Check.Tokens Proofs.Iter Proofs.Remap Proofs.Inline.
+     Model.Inline Spec.Script Check.Tokens Proofs.Iter Proofs.Remap Proofs.Inline Proofs.InlineMain.
 
 (* B1: Equal / Delete / Insert ops give the plain expansion, nothing emphasised *)
 Theorem c16_inline_not_replace :
@@ -162,6 +162,20 @@ Theorem c16_inline_replace_spec_all :
     inline_post old new o ol n nl ics.
 Proof. exact inline_replace_spec_all. Qed.
 Print Assumptions c16_inline_replace_spec_all.
+
+(* byte instance, no premise about the second-level diff or the newline
+   tokenizer: both discharged (pipeline theorem for Patience under every
+   clock; byte tokenizers correct on arbitrary bytes) *)
+Theorem c16_inline_replace_bytes :
+  forall (words : list N -> list token),
+    (forall s, check_partition (words s) 0 (length s) = true) ->
+  forall (dl : deadline) (dbg repair : bool) (old new : list (list N)) (o ol n nl : nat),
+    o + ol <= length old -> n + nl <= length new ->
+    Forall (fun l => l <> []) old -> Forall (fun l => l <> []) new ->
+  forall ics, inline_changes words true dl dbg repair old new (Replace o ol n nl) = Ok ics ->
+    inline_post old new o ol n nl ics.
+Proof. exact inline_replace_bytes. Qed.
+Print Assumptions c16_inline_replace_bytes.
 
 (* past the second-level diff, nothing in iter_inline_changes can panic *)
 Theorem c16_inline_replace_total :
